@@ -100,6 +100,91 @@ mod verif_c19t {
         check_contains(7);
     }
 
+    /// The row a filled triangle paints / points() yields (Triangle::scanline_intersection, used by
+    /// ScanlineIntersections for fills): it covers every integer point of the closed mathematical
+    /// triangle on that row, every covered point is inside the triangle or within half a pixel of an
+    /// edge, it is exactly the set of columns contains() accepts on that row (C05), and rows inside
+    /// the bounding box are never empty.
+    fn check_row(mask: u8) {
+        let nib = || (kani::any::<u8>() & mask) as i32;
+        let (a, b, c) = (Point::new(nib(), nib()), Point::new(nib(), nib()), Point::new(nib(), nib()));
+        kani::assume(cross(a, b, c) != 0);
+        let q = Point::new((kani::any::<u8>() & (2 * mask + 1)) as i32 - 1, (kani::any::<u8>() & (2 * mask + 1)) as i32 - 1);
+        kani::assume(q.x <= mask as i32 + 1 && q.y <= mask as i32 + 1);
+        let t = Triangle::new(a, b, c);
+        let row = t.scanline_intersection(q.y);
+        let inrow = row.x.start <= q.x && q.x < row.x.end;
+        let ins = inside_closed(a, b, c, q);
+        if ins {
+            assert!(inrow);
+        }
+        if inrow {
+            assert!(row.y == q.y);
+            assert!(ins || near_edge(a, b, q) || near_edge(b, c, q) || near_edge(c, a, q));
+        }
+        assert!(inrow == t.contains(q));
+        let bb = t.bounding_box();
+        if sp::top(&bb) <= q.y as i64 && (q.y as i64) < sp::bottom(&bb) {
+            assert!(row.x.start < row.x.end);
+            assert!(sp::left(&bb) <= row.x.start as i64 && row.x.end as i64 <= sp::right(&bb));
+        } else {
+            assert!(row.x.start >= row.x.end);
+        }
+        kani::cover!(inrow && !ins);
+        kani::cover!(inrow && ins && cross(a, b, c) < 0);
+        kani::cover!(!inrow && bb.contains(q));
+    }
+
+    //@harness prop=C19,C05 kind=bounded tier=quick class=P bound="vertices in 0..=3 x 0..=3 (Bresenham edge loops), probe point in -1..=4" timeout=900 kani="--no-assertion-reach-checks" fns=src/primitives/triangle/mod.rs::Triangle::scanline_intersection;src/primitives/common/scanline.rs::Scanline::bresenham_intersection;src/primitives/triangle/mod.rs::Triangle::contains
+    #[kani::proof]
+    #[kani::unwind(6)]
+    fn c19_triangle_row() {
+        check_row(3);
+    }
+
+    //@harness prop=C19,C05 kind=bounded tier=thorough class=P bound="vertices in 0..=7 x 0..=7, probe point in -1..=8" timeout=3000 kani="--no-assertion-reach-checks" fns=src/primitives/triangle/mod.rs::Triangle::scanline_intersection
+    #[kani::proof]
+    #[kani::unwind(10)]
+    fn c19_triangle_row_thorough() {
+        check_row(7);
+    }
+
+    /// The fill row does not depend on the order in which the vertices are given (the two swaps
+    /// generate all six orders), so two triangles sharing an edge paint the same pixels along it.
+    //@harness prop=C19 kind=bounded tier=quick class=P bound="vertices in 0..=3 x 0..=3, every row -1..=4" timeout=900 kani="--no-assertion-reach-checks" fns=src/primitives/triangle/mod.rs::Triangle::scanline_intersection
+    #[kani::proof]
+    #[kani::unwind(6)]
+    fn c19_triangle_row_order_independent() {
+        let nib = || (kani::any::<u8>() & 3) as i32;
+        let (a, b, c) = (Point::new(nib(), nib()), Point::new(nib(), nib()), Point::new(nib(), nib()));
+        let y = (kani::any::<u8>() & 7) as i32 - 1;
+        kani::assume(y <= 4);
+        let r = Triangle::new(a, b, c).scanline_intersection(y);
+        let r1 = Triangle::new(b, a, c).scanline_intersection(y);
+        let r2 = Triangle::new(a, c, b).scanline_intersection(y);
+        assert!(r.is_empty() == r1.is_empty() && r.is_empty() == r2.is_empty());
+        if !r.is_empty() {
+            assert!(r == r1 && r == r2);
+        }
+        kani::cover!(!r.is_empty() && cross(a, b, c) != 0);
+        kani::cover!(!r.is_empty() && cross(a, b, c) == 0 && a != b);
+    }
+
+    /// Without a stroke (width 0) a triangle with non-zero area is never "collapsed", whatever the stroke
+    /// alignment: the fill rows are drawn as Fill (assumed by c19_triangle_draw_fill_probe).
+    //@harness prop=C19 kind=bounded tier=thorough class=P bound="vertices in 0..=3 x 0..=3" timeout=3000 kani="--no-assertion-reach-checks" fns=src/primitives/triangle/mod.rs::Triangle::is_collapsed
+    #[kani::proof]
+    #[kani::unwind(5)]
+    fn c19_triangle_not_collapsed_without_stroke() {
+        let nib = || (kani::any::<u8>() & 3) as i32;
+        let (a, b, c) = (Point::new(nib(), nib()), Point::new(nib(), nib()), Point::new(nib(), nib()));
+        kani::assume(cross(a, b, c) != 0);
+        let off = match kani::any::<u8>() % 3 { 0 => StrokeOffset::None, 1 => StrokeOffset::Left, _ => StrokeOffset::Right };
+        let t = Triangle::new(a, b, c).sorted_clockwise();
+        assert!(!t.is_collapsed(0, off));
+        kani::cover!(off == StrokeOffset::Right);
+    }
+
     /// area_doubled / sorted_clockwise: the sign of the doubled area flips when two vertices are swapped
     /// and sorted_clockwise() has a non-negative doubled area (display scale, no overflow)
     //@harness prop=C19 kind=lemma tier=thorough class=P bound="vertices within +-256" timeout=3000 fns=src/primitives/triangle/mod.rs::Triangle::area_doubled;src/primitives/triangle/mod.rs::Triangle::sorted_clockwise
@@ -227,6 +312,208 @@ mod verif_c19p {
         assert!(Points::new(&Polyline { translate: tr, vertices: &v[..0] }).next().is_none());
         kani::cover!(r.is_some());
         kani::cover!(r.is_none());
+    }
+}
+//@end
+
+//@append src/primitives/triangle/scanline_iterator.rs
+#[cfg(kani)]
+#[allow(missing_docs, trivial_casts, trivial_numeric_casts, unused_qualifications, dead_code, unused)]
+pub(in crate::primitives::triangle) mod verif_c19i {
+    use super::*;
+    use crate::geometry::{Dimensions, Point, Size};
+    use crate::verif_probe::{any_point, sp};
+
+    /// Stand-ins for Triangle::scanline_intersection / Triangle::is_collapsed as *pure functions*: an
+    /// arbitrary but fixed row for every y (table indexed by y mod 4, the Scanline carries y itself) and an
+    /// arbitrary fixed flag. The real scanline_intersection is decided by c19_triangle_row.
+    pub static mut ROWS: [(i32, i32); 4] = [(0, 0); 4];
+    pub static mut COLLAPSED: bool = false;
+    pub fn row_fixed(_t: &Triangle, y: i32) -> Scanline {
+        let (a, b) = unsafe { ROWS[(y & 3) as usize] };
+        Scanline::new(y, a..b)
+    }
+    pub fn collapsed_fixed(_t: &Triangle, _w: u32, _o: StrokeOffset) -> bool {
+        unsafe { COLLAPSED }
+    }
+    pub fn init_fixed() {
+        let mut i = 0;
+        while i < 4 {
+            let (a, b): (i32, i32) = (kani::any(), kani::any());
+            kani::assume(-4096 <= a && a <= 4096 && -4096 <= b && b <= 4096);
+            unsafe { ROWS[i] = (a, b); }
+            i += 1;
+        }
+        unsafe { COLLAPSED = kani::any(); }
+    }
+    pub fn any_triangle() -> Triangle {
+        Triangle::new(any_point(1024), any_point(1024), any_point(1024))
+    }
+
+    /// Fill-only triangle (stroke width 0), any triangle and any row range: a fresh row yields exactly one
+    /// Fill scanline, namely scanline_intersection(row); the next call moves to the next row of the range
+    /// (top to bottom, one at a time) and ends when the range is exhausted. The constructor starts at the
+    /// first row of the given box with the clockwise-sorted triangle. Unbounded: scanline_intersection is
+    /// used through a pure-function stand-in, so no loop remains.
+    //@harness prop=C19,C05 kind=step tier=quick class=I kani="--no-assertion-reach-checks" fns=src/primitives/triangle/scanline_iterator.rs::ScanlineIterator::new;src/primitives/triangle/scanline_iterator.rs::ScanlineIterator::next;src/primitives/triangle/scanline_intersections.rs::ScanlineIntersections::new;src/primitives/triangle/scanline_intersections.rs::ScanlineIntersections::next;src/primitives/triangle/scanline_intersections.rs::ScanlineIntersections::generate_lines;src/primitives/triangle/scanline_intersections.rs::ScanlineIntersections::reset_with_new_scanline
+    #[kani::proof]
+    #[kani::unwind(5)]
+    #[kani::stub(crate::primitives::triangle::Triangle::scanline_intersection, row_fixed)]
+    #[kani::stub(crate::primitives::triangle::Triangle::is_collapsed, collapsed_fixed)]
+    fn c19_triangle_scanline_iterator_step() {
+        init_fixed();
+        let t = any_triangle();
+        let (a, b, y0): (i32, i32, i32) = (kani::any(), kani::any(), kani::any());
+        kani::assume(-2048 <= a && a <= b && b <= 2048 && -2048 <= y0 && y0 <= 2048);
+        let fresh = ScanlineIntersections::new(&t, 0, StrokeOffset::None, true, y0);
+        let mut it = ScanlineIterator { rows: a..b, scanline_y: y0, intersections: fresh };
+        let r = it.next();
+        let row0 = row_fixed(&t, y0);
+        if !row0.is_empty() {
+            assert!(r == Some((row0, PointType::Fill)));
+            assert!(it.rows == (a..b) && it.scanline_y == y0);
+            let r2 = it.next();
+            if a < b {
+                let row1 = row_fixed(&t, a);
+                assert!(it.scanline_y == a && it.rows == (a + 1..b));
+                if !row1.is_empty() {
+                    assert!(r2 == Some((row1, PointType::Fill)));
+                } else {
+                    assert!(r2.is_none());
+                }
+            } else {
+                assert!(r2.is_none());
+            }
+            kani::cover!(r2.is_some());
+            kani::cover!(r2.is_none() && a == b);
+        }
+        // constructor
+        let bb = Rectangle::new(any_point(1024), Size::new(kani::any::<u16>() as u32 & 2047, kani::any::<u16>() as u32 & 2047));
+        let mut n = ScanlineIterator::new(&t, 0, StrokeOffset::None, true, &bb);
+        if bb.size.height > 0 {
+            let top = bb.top_left.y;
+            assert!(n.rows == (top + 1..top + bb.size.height as i32) && n.scanline_y == top);
+            assert!(n.intersections == ScanlineIntersections::new(&t.sorted_clockwise(), 0, StrokeOffset::None, true, top));
+        } else {
+            assert!(n.next().is_none());
+        }
+        kani::cover!(bb.size.height > 1);
+    }
+}
+//@end
+
+//@append src/primitives/triangle/points.rs
+#[cfg(kani)]
+#[allow(missing_docs, trivial_casts, trivial_numeric_casts, unused_qualifications, dead_code, unused)]
+mod verif_c19p {
+    use super::*;
+    use crate::primitives::triangle::scanline_iterator::verif_c19i::{any_triangle, init_fixed};
+
+    /// Triangle::points() flattens the fill scanlines: constructor = scanline iterator over the
+    /// bounding box with no stroke and a fill, no current line; a non-empty current line yields its
+    /// left-most point and shrinks by it, the scanline iterator is untouched; an exhausted current line
+    /// is replaced by the next scanline of the iterator (its first point is yielded); the end of the
+    /// scanlines ends the iteration. Together with c19_triangle_scanline_iterator_step and
+    /// c19_triangle_row this is "each point contains() accepts exactly once, in row-major order".
+    //@harness prop=C19,C05 kind=step tier=quick class=I bound="scanline iterator states reached from the constructor after 0..=2 steps (any triangle within +-1024)" kani="--no-assertion-reach-checks" fns=src/primitives/triangle/points.rs::Points::new;src/primitives/triangle/points.rs::Points::next
+    #[kani::proof]
+    #[kani::unwind(5)]
+    #[kani::stub(crate::primitives::triangle::Triangle::scanline_intersection, crate::primitives::triangle::scanline_iterator::verif_c19i::row_fixed)]
+    #[kani::stub(crate::primitives::triangle::Triangle::is_collapsed, crate::primitives::triangle::scanline_iterator::verif_c19i::collapsed_fixed)]
+    fn c19_triangle_points_step() {
+        init_fixed();
+        let t = any_triangle();
+        let n = Points::new(&t);
+        let it0 = ScanlineIterator::new(&t, 0, StrokeOffset::None, true, &t.bounding_box());
+        assert!(n.scanline_iter == it0 && n.current_line.is_empty());
+        let mut it = it0.clone();
+        let k: u8 = kani::any();
+        kani::assume(k <= 2);
+        if k >= 1 { let _ = it.next(); }
+        if k >= 2 { let _ = it.next(); }
+        // non-empty current line
+        let (y, x0, x1): (i32, i32, i32) = (kani::any(), kani::any(), kani::any());
+        kani::assume(x0 < x1);
+        let mut p = Points { scanline_iter: it.clone(), current_line: Scanline::new(y, x0..x1) };
+        assert!(p.next() == Some(Point::new(x0, y)));
+        assert!(p.current_line == Scanline::new(y, x0 + 1..x1) && p.scanline_iter == it);
+        // exhausted current line
+        let mut p = Points { scanline_iter: it.clone(), current_line: Scanline::new(y, x0..x0) };
+        let mut it2 = it.clone();
+        let r = p.next();
+        match it2.next() {
+            None => assert!(r.is_none()),
+            Some((l, _)) => {
+                assert!(!l.is_empty());
+                assert!(r == Some(Point::new(l.x.start, l.y)));
+                assert!(p.current_line == Scanline::new(l.y, l.x.start + 1..l.x.end));
+                assert!(p.scanline_iter == it2);
+            }
+        }
+        kani::cover!(r.is_some() && k == 2);
+        kani::cover!(r.is_none());
+    }
+}
+//@end
+
+//@append src/primitives/triangle/styled.rs
+#[cfg(kani)]
+#[allow(missing_docs, trivial_casts, trivial_numeric_casts, unused_qualifications, dead_code, unused)]
+mod verif_c19d {
+    use super::*;
+    use crate::{
+        geometry::Size,
+        pixelcolor::Gray8,
+        primitives::{triangle::scanline_iterator::verif_c19i::{init_fixed, row_fixed}, Primitive},
+        verif_probe::{any_point, sp, ProbeNative, ProbeState},
+        Drawable,
+    };
+
+    unsafe fn verif_rows_nonempty() -> bool {
+        use crate::primitives::triangle::scanline_iterator::verif_c19i::ROWS;
+        ROWS[0].0 < ROWS[0].1 && ROWS[1].0 < ROWS[1].1 && ROWS[2].0 < ROWS[2].1 && ROWS[3].0 < ROWS[3].1
+    }
+
+    /// A filled triangle without stroke paints exactly the fill rows (scanline_intersection(y) for every
+    /// row y of its bounding box) in the fill colour and nothing else, whatever stroke width 0 style is
+    /// used; a transparent style draws nothing. Rows through the pure-function stand-in, bounding box
+    /// height <= 3 (the draw loop runs once per row).
+    //@harness prop=C19,C02 kind=bounded tier=quick class=P bound="bounding box height <= 3 rows (draw loop), x within +-1024; stroke alignment Center or Outside (Inside: thorough lemma)" timeout=900 kani="--no-assertion-reach-checks" fns=src/primitives/triangle/styled.rs::Triangle::draw_styled
+    #[kani::proof]
+    #[kani::unwind(5)]
+    #[kani::stub(crate::primitives::triangle::Triangle::scanline_intersection, crate::primitives::triangle::scanline_iterator::verif_c19i::row_fixed)]
+    #[kani::stub(crate::primitives::triangle::Triangle::is_collapsed, crate::primitives::triangle::scanline_iterator::verif_c19i::collapsed_fixed)]
+    fn c19_triangle_draw_fill_probe() {
+        init_fixed();
+        // rows of a triangle are never empty inside its bounding box (c19_triangle_row); an empty row would end
+        // the scanline iteration (c19_triangle_scanline_iterator_step)
+        kani::assume(unsafe { verif_rows_nonempty() });
+        let py = || (kani::any::<u8>() & 3) as i32;
+        let y0: i32 = kani::any();
+        kani::assume(-1024 <= y0 && y0 <= 1024);
+        let v = |dy: i32| Point::new(any_point(1024).x, y0 + dy);
+        let (d1, d2, d3) = (py(), py(), py());
+        kani::assume(d1 <= 2 && d2 <= 2 && d3 <= 2);
+        let t = Triangle::new(v(d1), v(d2), v(d3));
+        let fill: Option<Gray8> = if kani::any() { Some(Gray8::new(50)) } else { None };
+        let mut style = PrimitiveStyle::<Gray8>::new();
+        style.fill_color = fill;
+        style.stroke_color = if kani::any() { Some(Gray8::new(200)) } else { None };
+        style.stroke_width = 0;
+        // Center / Outside: is_collapsed() (arbitrary here) must not matter. Inside needs "a triangle with non-zero
+        // area is not collapsed at stroke width 0" (c19_triangle_not_collapsed_without_stroke, thorough tier).
+        style.stroke_alignment = if kani::any() { StrokeAlignment::Center } else { StrokeAlignment::Outside };
+        let q = any_point(8192);
+        let bb = t.bounding_box();
+        let mut target = ProbeNative::<Gray8>(ProbeState::new(q, crate::verif_probe::everything(), crate::verif_probe::everything()));
+        t.into_styled(style).draw(&mut target).unwrap();
+        let row = row_fixed(&t, q.y);
+        let in_rows = sp::top(&bb) <= q.y as i64 && (q.y as i64) < sp::bottom(&bb);
+        let expected = if in_rows && row.x.start <= q.x && q.x < row.x.end { fill } else { None };
+        assert!(target.0.last == expected);
+        assert!(target.0.writes <= 1);
+        kani::cover!(expected.is_some());
+        kani::cover!(fill.is_some() && in_rows && expected.is_none());
     }
 }
 //@end
